@@ -41,6 +41,7 @@ var (
 	childFlag = flag.Bool("child", false, "run as supervised executor (internal)")
 	onlyFn    = flag.String("fn", "", "restrict to one function (debugging)")
 	noTable   = flag.Bool("notable", false, "skip the direct descriptor.Table differential (debugging)")
+	traceOut  = flag.String("trace", "", "write one line per case (fn, state, args, errno, diff, table) to this file (debugging)")
 	rep       *hx.Report
 	orc       *hx.Oracle
 )
@@ -277,6 +278,7 @@ var (
 	imgMu     sync.Mutex
 	imgCache  = map[string][]byte{}
 	modelled  = map[string]bool{}
+	modelled2 = map[string]bool{} // the second batch (alternatives, self-clipped regions)
 	pollFixed bool
 )
 
@@ -354,23 +356,18 @@ func setupOracle() {
 	for _, f := range strings.Fields(orc.Ask("c15 modelled")) {
 		modelled[f] = true
 	}
+	for _, f := range strings.Fields(orc.Ask("c15 modelled2")) {
+		modelled2[f] = true
+	}
 }
 
-// compareModel asks the Lean model for errno / writes / table and compares with what the code did.
-func compareModel(cs Case, r *Result, img []byte) {
-	sendImage(cs.Img)
-	var sb strings.Builder
-	fmt.Fprintf(&sb, "c15 call %s %s %s", cs.Fn, cs.Img, tableKey(r.Before))
-	for _, a := range cs.Args {
-		fmt.Fprintf(&sb, " %d", a)
-	}
-	ans := orc.Ask(sb.String())
-	rep.Count("model:" + cs.Fn)
+// altResult: does one alternative of the model's answer describe what the code did? ("" = yes, else what differs)
+func altDiffers(cs Case, r *Result, img []byte, alt string) string {
 	want := append([]byte{}, img...)
 	dontCare := map[int]bool{}
 	var wantErr, wantTable string
 	var wantAlloc uint64
-	for _, tok := range strings.Fields(ans) {
+	for _, tok := range strings.Fields(alt) {
 		switch {
 		case strings.HasPrefix(tok, "e="):
 			wantErr = tok[2:]
@@ -385,49 +382,54 @@ func compareModel(cs Case, r *Result, img []byte) {
 				fmt.Sscanf(w[:i], "%d", &off)
 				bs, err := hex.DecodeString(w[i+1:])
 				if err != nil {
-					hx.Fatal("oracle answer %q", ans)
+					hx.Fatal("oracle answer %q", alt)
 				}
 				for k, b := range bs {
 					if off+k < len(want) {
 						want[off+k] = b
 						delete(dontCare, off+k)
 					} else {
-						mismatch(cs, "write-beyond-memory", ans, r)
-						return
+						return "write-beyond-memory"
 					}
 				}
 			} else if i := strings.IndexByte(w, '+'); i >= 0 {
 				var off, l int
 				fmt.Sscanf(w[:i], "%d", &off)
 				fmt.Sscanf(w[i+1:], "%d", &l)
+				if off+l > len(want) && modelled2[cs.Fn] {
+					return "write-beyond-memory" // the models of the second batch clip their regions themselves
+				}
 				for k := 0; k < l && off+k < len(want); k++ {
 					dontCare[off+k] = true
 				}
 			} else {
-				hx.Fatal("oracle answer %q", ans)
+				hx.Fatal("oracle answer %q", alt)
 			}
 		default:
-			hx.Fatal("oracle answer %q to %q", ans, sb.String())
+			hx.Fatal("oracle answer %q for %s", alt, cs.Fn)
 		}
 	}
-	rep.Count("model-errno:" + cs.Fn + ":" + wantErr)
 	// errno
 	switch wantErr {
 	case "any":
+		if r.Err != "" || r.Exit {
+			return "errno"
+		}
+	case "nz":
+		if r.Err != "" || r.Exit || r.Errno == 0 {
+			return "errno"
+		}
 	case "panic":
 		if !strings.Contains(r.Err, "runtime error") {
-			mismatch(cs, "errno", ans, r)
-			return
+			return "errno"
 		}
 	case "exit":
 		if !r.Exit {
-			mismatch(cs, "errno", ans, r)
-			return
+			return "errno"
 		}
 	default:
 		if r.Err != "" || fmt.Sprint(r.Errno) != wantErr {
-			mismatch(cs, "errno", ans, r)
-			return
+			return "errno"
 		}
 	}
 	// memory
@@ -438,18 +440,115 @@ func compareModel(cs Case, r *Result, img []byte) {
 	}
 	for i := range got {
 		if got[i] != want[i] && !dontCare[i] {
-			mismatch(cs, fmt.Sprintf("memory@%d", i), ans, r)
-			return
+			return fmt.Sprintf("memory@%d", i)
 		}
 	}
 	if wantTable != "" && wantTable != tableKey(r.After) {
-		mismatch(cs, "table", ans, r)
-		return
+		return "table"
+	}
+	if wantTable == "" && modelled2[cs.Fn] && tableKey(r.Before) != tableKey(r.After) {
+		return "table" // an alternative without t= leaves the table as it was
 	}
 	// allocation predicted by the model (descriptor-table growth): measured within [a, 2.5a + 1 MiB]
 	if wantAlloc > 1<<16 && (r.Alloc < wantAlloc || r.Alloc > wantAlloc*5/2+1<<20) {
-		mismatch(cs, "alloc", ans, r)
+		return "alloc"
 	}
+	return ""
+}
+
+var (
+	askMu        sync.Mutex
+	dirOrderSent string
+	desigSeen    sync.Map
+)
+
+func fnvRegions(rs []region) string {
+	n, h := 0, uint64(0)
+	for _, r := range rs {
+		if r.len == 0 {
+			continue
+		}
+		n++
+		h = (h*1000003 + r.off*65537 + r.len) % (1 << 40)
+	}
+	return fmt.Sprintf("%d %d", n, h)
+}
+
+// compareDesignated: the Lean table of designated output regions (Wz.Model.Wasi.designated, the one the theorems
+// speak about) and the Go table of spec.go (the one the monitor uses) agree on this case.
+func compareDesignated(cs Case, img []byte) {
+	k := cs.Fn + "|" + fmtArgs(cs.Args) + "|" + cs.Img
+	if _, dup := desigSeen.LoadOrStore(k, true); dup {
+		return
+	}
+	sendImage(cs.Img)
+	var sb strings.Builder
+	fmt.Fprintf(&sb, "c15 designated %s %s", cs.Fn, cs.Img)
+	for _, a := range cs.Args {
+		fmt.Fprintf(&sb, " %d", a)
+	}
+	ans := orc.Ask(sb.String())
+	rep.Count("designated-compared")
+	if want := fnvRegions(designated(cs.Fn, cs.Args, img)); ans != want {
+		rep.Violate(hx.Violation{Kind: "correspondence", Signature: "C15:designated-tables-differ:" + cs.Fn,
+			What:  fmt.Sprintf("%s(%s) [%s]: designated output regions of spec.go (count, hash) = %s, of Wz.Model.Wasi.designated = %s", cs.Fn, fmtArgs(cs.Args), cs.Img, want, ans),
+			Input: cs, Expected: want, Actual: ans})
+	}
+}
+
+// compareModel asks the Lean model for errno / writes / table and compares with what the code did.  The answer
+// is a list of alternatives separated by " | "; the code must match one of them.
+func compareModel(cs Case, r *Result, img []byte) {
+	sendImage(cs.Img)
+	var sb strings.Builder
+	fmt.Fprintf(&sb, "c15 call %s %s %s", cs.Fn, cs.Img, tableKey(r.Before))
+	for _, a := range cs.Args {
+		fmt.Fprintf(&sb, " %d", a)
+	}
+	askMu.Lock()
+	if cs.Fn == "fd_readdir" && r.DirOrder != "" && r.DirOrder != dirOrderSent {
+		f := strings.Fields(r.DirOrder)
+		if len(f) != 2 || strings.Contains(r.DirOrder, "?") {
+			askMu.Unlock()
+			rep.Count("dir-order-unreadable")
+			return
+		}
+		if a := orc.Askf("c15 hostdirs %s %s", f[0], f[1]); a != "ok" {
+			hx.Fatal("oracle hostdirs: %s", a)
+		}
+		if dirOrderSent != "" {
+			rep.Count("dir-order-changed")
+		}
+		dirOrderSent = r.DirOrder
+	}
+	ans := orc.Ask(sb.String())
+	askMu.Unlock()
+	rep.Count("model:" + cs.Fn)
+	if ans == "bad-op" {
+		hx.Fatal("oracle refuses %q", sb.String())
+	}
+	alts := strings.Split(ans, " | ")
+	first := ""
+	for i, alt := range alts {
+		d := altDiffers(cs, r, img, alt)
+		if d == "" {
+			e := ""
+			for _, tok := range strings.Fields(alt) {
+				if strings.HasPrefix(tok, "e=") {
+					e = tok[2:]
+				}
+			}
+			rep.Count("model-errno:" + cs.Fn + ":" + e)
+			if len(alts) > 1 {
+				rep.Count(fmt.Sprintf("model-alt:%s:%d/%d", cs.Fn, i+1, len(alts)))
+			}
+			return
+		}
+		if first == "" {
+			first = d
+		}
+	}
+	mismatch(cs, first, ans, r)
 }
 
 func mismatch(cs Case, what, ans string, r *Result) {
@@ -473,8 +572,38 @@ var (
 	confirmed = map[string]int{}
 )
 
+var (
+	traceMu sync.Mutex
+	traceF  *os.File
+)
+
+func traceCase(cs Case, o outcome) {
+	if *traceOut == "" || o.res == nil {
+		return
+	}
+	traceMu.Lock()
+	defer traceMu.Unlock()
+	if traceF == nil {
+		f, err := os.Create(*traceOut)
+		if err != nil {
+			hx.Fatal("trace: %v", err)
+		}
+		traceF = f
+	}
+	var d []string
+	for _, r := range o.res.Diff {
+		d = append(d, fmt.Sprintf("%d+%d", r.Off, len(r.Hex)/2))
+	}
+	tb := ""
+	if tableKey(o.res.Before) != tableKey(o.res.After) {
+		tb = " T:" + tableKey(o.res.After)
+	}
+	fmt.Fprintf(traceF, "%s %s %s %s e=%d err=%q diff=%s%s\n", cs.Fn, cs.State, cs.Img, fmtArgs(cs.Args), o.res.Errno, firstLines(o.res.Err, 1), strings.Join(d, ","), tb)
+}
+
 func process(cs Case, o outcome) {
 	img := image(cs.Img)
+	traceCase(cs, o)
 	fs := monitor(cs, o, img)
 	if o.faulty {
 		hx.Fatal("child fault on %s(%s): %s", cs.Fn, fmtArgs(cs.Args), o.crash)
@@ -529,9 +658,10 @@ func process(cs Case, o outcome) {
 			rep.Count("wrote-memory")
 		}
 	}
-	if o.res != nil && modelled[cs.Fn] && cs.State != "sock" { // (the Lean footprint model knows files and directories, not sockets)
+	if o.res != nil && modelled[cs.Fn] {
 		compareModel(cs, o.res, img)
 	}
+	compareDesignated(cs, img)
 }
 
 func runAll(cases []Case) {
